@@ -1,5 +1,6 @@
 """The `verdict` correspondence: Gallina `validate` on the translated schemas against
 ocpp.messages._validate_payload (jsonschema) on the schema files, instance by instance."""
+import copy
 import json
 import random
 
@@ -205,3 +206,111 @@ def run_correspondence(rep, rows, tag, prop_id, shard_size=250, check_codes=Fals
                                "theorem": "verdict correspondence (Model/Schema.v vs _validate_payload)"},
                               found_input=False)
     return results
+
+
+# ----------------------------------------------------------------------------- same-named definitions in both versions
+def shared_definition_rows():
+    """Definitions that BOTH versions' schema files declare under the same name with different enumerations (the 1.6
+    security extension and 2.0.1 share many type names): for every position that refers to such a definition, the valid
+    instance of the message with a value that only the OTHER version's definition allows.
+    -> [(version, mtype, action, payload)] (all of them invalid for `version`)."""
+    rng = random.Random(5)
+    schemas = {"1.6": G.load_schemas("v16"), "2.0.1": G.load_schemas("v201")}
+    enums = {v: {} for v in schemas}
+    for v, files in schemas.items():
+        for name, root in files.items():
+            for dname, d in (root.get("definitions") or {}).items():
+                if isinstance(d, dict) and isinstance(d.get("enum"), list):
+                    enums[v].setdefault(dname, set()).update(x for x in d["enum"] if isinstance(x, str))
+    props = {v: {} for v in schemas}
+    for v, files in schemas.items():
+        for name, root in files.items():
+            for dname, d in (root.get("definitions") or {}).items():
+                if isinstance(d, dict) and isinstance(d.get("properties"), dict):
+                    props[v].setdefault(dname, set()).update(d["properties"])
+    rows = []
+    for (version, pkg, mtype, action, name) in G.message_index():
+        other = "2.0.1" if version == "1.6" else "1.6"
+        root = schemas[version][name]
+        full = G.valid_value(root, root, "plain", rng, "all")
+
+        def walk(s, inst, path):
+            dname = None
+            while isinstance(s, dict) and "$ref" in s:
+                dname = s["$ref"].split("/")[-1]
+                s = root["definitions"][dname]
+            if not isinstance(s, dict):
+                return
+            if dname and isinstance(s.get("enum"), list) and dname in enums[other]:
+                extra = sorted(enums[other][dname] - set(s["enum"]))
+                if extra:
+                    yield path, extra[0]
+            if dname and isinstance(inst, dict) and isinstance(s.get("properties"), dict) and s.get("additionalProperties") is False \
+                    and dname in props[other]:
+                extra = sorted(props[other][dname] - set(s["properties"]))
+                if extra:
+                    yield path + (extra[0],), ({"vendorId": "v"} if extra[0] == "customData" else "x")
+            if isinstance(inst, dict):
+                for k, sub in (s.get("properties") or {}).items():
+                    if k in inst:
+                        yield from walk(sub, inst[k], path + (k,))
+            elif isinstance(inst, list) and inst and isinstance(s.get("items"), dict):
+                yield from walk(s["items"], inst[0], path + (0,))
+        for path, value in walk(root, full, ()):
+            mutated = copy.deepcopy(full)
+            cur = mutated
+            for k in path[:-1]:
+                cur = cur[k]
+            cur[path[-1]] = value
+            rows.append((version, mtype, action, mutated))
+    return rows
+
+
+_COLD_CROSS = r"""
+import json, sys
+sys.path[:0] = [sys.argv[1], sys.argv[2]]
+from harness import verdict as V
+out = []
+for (version, mtype, action, payload) in json.loads(sys.stdin.read()):
+    out.append(list(V.impl_verdict(version, mtype, action, payload)[:2]))
+print("@@" + json.dumps(out, default=repr))
+"""
+
+
+def cold_cross_versions(rep, prop):
+    """In a FRESH interpreter: every message of one version validated once (all validators of that version exist), then
+    the other version's messages carrying values that only the first version's same-named definitions allow -- they are
+    refused all the same; and both orders.  The expectation is an evaluation of the schema file that shares nothing with
+    the library (independent_verdict)."""
+    import os
+    import subprocess
+    rng = random.Random(7)
+    schemas = {"1.6": G.load_schemas("v16"), "2.0.1": G.load_schemas("v201")}
+    warm = {"1.6": [], "2.0.1": []}
+    for (version, pkg, mtype, action, name) in G.message_index():
+        root = schemas[version][name]
+        warm[version].append((version, mtype, action, G.valid_value(root, root, "plain", rng, "all")))
+    targeted = shared_definition_rows()
+    rep.coverage["shared_definition_positions"] = len(targeted)
+    for first in ("2.0.1", "1.6"):
+        second = "1.6" if first == "2.0.1" else "2.0.1"
+        seq = warm[first] + [r for r in targeted if r[0] == second] + warm[second] + [r for r in targeted if r[0] == first]
+        pr = subprocess.run([C.PY, "-c", _COLD_CROSS, C.REPO, C.VERIF], input=json.dumps(seq), capture_output=True, text=True, timeout=300,
+                            env=dict(os.environ, PYTHONHASHSEED="0", PYTHONPATH=C.REPO, OCPP_REPO=C.REPO))
+        try:
+            got = json.loads(pr.stdout.split("@@")[-1])
+        except ValueError:
+            rep.violation("%s:cold-cross:%s-first:harness" % (prop, first), "the fresh-interpreter run failed: %s" % pr.stderr[-300:],
+                          {"kind": "cold-cross", "first": first}, found_input=False)
+            continue
+        for (version, mtype, action, payload), v in zip(seq, got):
+            rep.count("cold-cross:%s:%s:%s:%s:%s" % (first, version, mtype, action, json.dumps(payload, sort_keys=True)[:300]))
+            want = independent_verdict(version, mtype, action, payload)
+            if want is None:
+                continue
+            if (v[0] == "accept") != want:
+                rep.violation("%s:cold-cross:%s-first:%s:%s:%s" % (prop, first, version, mtype, action),
+                              "fresh interpreter, OCPP %s messages validated first: %s %s %s is judged %r, the schema file says %s" % (
+                                  first, version, mtype, action, v, "valid" if want else "invalid"),
+                              {"kind": "cold-cross", "first": first, "version": version, "mtype": mtype, "action": action,
+                               "payload": payload, "verdict": v, "schema_says_valid": want})
